@@ -1,6 +1,6 @@
 CONSTANTS
   NFiles = 4
-  Templates = {"S", "SEA", "C", "SC", "Conly", "TieS", "TieE", "Ref", "Bad"}
+  Templates = {"S", "SEA", "C", "SC", "Conly", "TieS", "TieE", "Ref", "Ren", "Bad"}
   SortConsts = TRUE
 INIT Init
 NEXT Next
